@@ -37,6 +37,7 @@ type Config struct {
 	Bounds       map[string]int
 	StrParams    map[string]string
 	BitLenExtra  []int // additional exact anchors for the big.Int BitLen model
+	UF0          map[string]bool // functions replaced by an arbitrary constant result per path (their argument does not change during the run)
 	UF           map[string]bool // functions replaced by uninterpreted pure functions of their arguments (stub by contract)
 	LazyFeas     bool  // do not ask the solver at forks: both sides are explored, feasibility is decided at assertions and at the end of a path
 	Deadline     time.Time
@@ -46,7 +47,7 @@ type Config struct {
 }
 
 func defaultConfig() *Config {
-	return &Config{Unwind: 12, ListBound: 2, ByteBound: 8, StrConvMax: 8, MaxDepth: 80, MaxPaths: 20000, TimeoutMs: 20000, Solver: "z3-new", Bounds: map[string]int{}, Merge: map[string]bool{}, StrParams: map[string]string{}, UF: map[string]bool{}}
+	return &Config{Unwind: 12, ListBound: 2, ByteBound: 8, StrConvMax: 8, MaxDepth: 80, MaxPaths: 20000, TimeoutMs: 20000, Solver: "z3-new", Bounds: map[string]int{}, Merge: map[string]bool{}, StrParams: map[string]string{}, UF: map[string]bool{}, UF0: map[string]bool{}}
 }
 
 type symInfo struct {
@@ -187,6 +188,7 @@ type Exec struct {
 	fnCache       map[string]*ssa.Function
 	curFn         *ssa.Function
 	lazyUnchecked bool
+	pcSet         map[string]bool // branch literals asserted on this path (syntactic shortcut for repeated decisions)
 	loopCache     map[*ssa.Function]map[*ssa.BasicBlock]bool
 }
 
@@ -301,6 +303,12 @@ func (e *Exec) assume(cond string) {
 
 // assumeBranch adds a branch decision to the path condition.
 func (e *Exec) assumeBranch(cond string) {
+	if e.mergeDepth == 0 {
+		if e.pcSet == nil {
+			e.pcSet = map[string]bool{}
+		}
+		e.pcSet[cond] = true
+	}
 	l := "(assert " + cond + ")"
 	e.send(l)
 	e.pcLines = append(e.pcLines, l)
@@ -362,6 +370,19 @@ func (e *Exec) branch(c *BoolV) bool {
 	}
 	if !e.cfg.Deadline.IsZero() && time.Now().After(e.cfg.Deadline) {
 		panic(pathEnd{"deadline", "time budget exhausted"})
+	}
+	if e.mergeDepth == 0 && !noShortcut {
+		// a decision already taken on this path (same literal) is not asked again
+		if e.pcSet[c.T] {
+			e.script = append(e.script, true)
+			e.pos++
+			return true
+		}
+		if e.pcSet["(not "+c.T+")"] || strings.HasPrefix(c.T, "(not ") && e.pcSet[c.T[5:len(c.T)-1]] {
+			e.script = append(e.script, false)
+			e.pos++
+			return false
+		}
 	}
 	if e.cfg.LazyFeas {
 		e.lazyUnchecked = true
@@ -698,6 +719,11 @@ func (e *Exec) call(fn *ssa.Function, args []Value, bind []Value) Value {
 		}
 		e.inited[fn.Pkg] = true
 	}
+	if e.initMode == 0 && e.cfg.UF0[name] {
+		// stub by contract: an arbitrary result that is the same at every call on this path
+		e.stub("uf0:" + name)
+		return e.ufCall(name, nil, fn.Signature.Results())
+	}
 	if e.initMode == 0 && e.cfg.UF[name] {
 		e.stub("uf:" + name)
 		return e.ufCall(name, args, fn.Signature.Results())
@@ -978,6 +1004,7 @@ func (e *Exec) resetPath() {
 	e.monitorOn = false
 	e.lockDepth = map[*Obj]int{}
 	e.pcLines = nil
+	e.pcSet = nil
 	e.lazyUnchecked = false
 	e.ghost = map[string][]Value{}
 	e.objSeq = e.initSeq
@@ -1244,3 +1271,5 @@ func isGhostTag(tag string) bool {
 	i := strings.LastIndex(tag, ".")
 	return strings.HasPrefix(tag, "global:") && i >= 0 && strings.HasPrefix(tag[i+1:], "zz")
 }
+
+var noShortcut = os.Getenv("SYMGO_NOSHORTCUT") != ""
